@@ -2,6 +2,7 @@ package vh
 
 import (
 	"fmt"
+	"os"
 	"strings"
 	"sync/atomic"
 
@@ -38,6 +39,17 @@ func runProg(cfg CheckCfg, prog *Prog) *CaseRun {
 	}
 	if n := len(x.Log); n > 0 {
 		r.Last = x.Log[n-1]
+	}
+	if os.Getenv("VERIF_DEBUG") != "" {
+		fmt.Fprintf(os.Stderr, "---- runProg cfg=%+v: %d invocations, failed=%v report=%q %q\n", cfg, len(x.Log), obs.Failed, r.Rep.Kind, r.Rep.Msg)
+		for i, inv := range x.Log {
+			if i < 40 || i >= len(x.Log)-5 {
+				fmt.Fprintf(os.Stderr, "  inv %d: falsified=%v rejects=%d %s\n", i, inv.Falsified, inv.Rejects, inv.Outcome())
+			}
+		}
+		for _, m := range obs.Msgs {
+			fmt.Fprintf(os.Stderr, "  TB %s: %s\n", m.Kind, firstLine(m.Text))
+		}
 	}
 	return r
 }
